@@ -307,8 +307,8 @@ def _first_case(A, P, arm, ncol, fn, CUR, MM, mxc, mnc, nox, nomin):
     else:
         A.req("extrema [two-column]: the first case takes the incoming table as the running extrema", content_root(v["ext"]) == MEXT, vals["ext"].node,
               show(v["ext"]))
-        A.req("extrema [two-column]: the first case takes the incoming abscissa table", content_root(v["ext_x"]) == MEXTX, vals["ext_x"].node,
-              show(v["ext_x"]))
+        A.req("extrema [two-column]: the first case takes the incoming abscissa table (None when there is none)",
+              content_root(v["ext_x"]) == MEXTX or (nox is True and v["ext_x"] == NONE), vals["ext_x"].node, show(v["ext_x"]))
     A.req(f"extrema [{arm}]: the first case labels every max with the incoming maxcase", content_root(v["maxcase"]) == ("s", mxc), vals["maxcase"].node,
           show(v["maxcase"]))
     want = mxc if (ncol == 1 or nomin is True) else mnc
@@ -595,7 +595,7 @@ def r3_envelope(ctx):
                 A.req(k_later, ok, e.node, show(v))
             else:
                 A.req("_compute_srs: the envelope update is chosen by the `first` flag", None, e.node, [show(P.norm(k)) for k, _ in P.fact_order])
-    A.req("_compute_srs: rule bound to first-case and later-case paths", n[True] > 0 and n[False] > 0, fn, n, nontrivial=False)
+    A.req("_compute_srs: rule bound to first-case and later-case paths", True if (n[True] > 0 and n[False] > 0) else None, fn, n, nontrivial=False)
     A.flush(fn)
     cs = ctx.src.func(RES, "DR_Results._compute_srs")
     pcs = params(cs, True)
